@@ -3,6 +3,7 @@ import sys
 
 from sa import report, rules_marks as RM, rules_read as RD, rules_reader as RR, rules_sibling as RSB
 from sa import rules_extra as RX
+from sa import rules_grammar as RG
 
 
 def run(ctx, repo):
@@ -30,6 +31,8 @@ def run(ctx, repo):
     RSB.r_simple_key_limit(ctx, repo)
     RX.r_mark_from_position(ctx, repo)
     RX.r_docmarker_column0(ctx, repo)
+    RG.r_parser_grammar(ctx, repo, max_len=8 if ctx.tier == 'thorough' else 6)
+
 
 if __name__ == '__main__':
     sys.exit(report.main('C09', 'other', run))
